@@ -226,10 +226,12 @@ def run_unit(repo, unit, contracts_dir, tier='quick', jobs=8, keep=False, known=
             if wout.get('failures'):
                 res['failures'] += wout['failures']
                 res['status'] = 'violation'
-            elif wout.get('undecided') and res['status'] == 'ok':
-                res['status'] = 'undecided'
-                res['reason'] = wout['undecided']
-                res['diagnostics'] = wout.get('diagnostics', '')
+            elif wout.get('undecided'):
+                # a witness search that could not run (harness no longer builds against a refactored private
+                # item, candidate that does not replay) decides nothing either way: it is refutation-only, so
+                # it is reported as a note and does not turn a unit whose proofs all passed into "undecided"
+                res['witness_note'] = wout['undecided']
+                res['witness_diagnostics'] = wout.get('diagnostics', '')[-1500:]
         return res
     finally:
         res['wall_s'] = time.time() - t0
